@@ -229,7 +229,9 @@ class CircuitResult:
             self.num_qubits = len(qubits)
             for key, value in counts.items():
                 key = key.replace(" ", "")  # might contain spaces to separate registers
-                key = "".join(key[index] for index in qubits)
+                # keys are little-endian: qubit q is at position -1-q, and the extracted key has to be
+                # little-endian again (first selected qubit rightmost)
+                key = "".join(key[-1 - index] for index in reversed(qubits))
                 self.results.append(BinaryResult(Bitstring(int(key, 2)), value))
 
     def __str__(self) -> str:
